@@ -3,8 +3,12 @@
 record the outcome in seeded/<name>/meta.json and write seeded/README.md."""
 import json, os, re, shutil, subprocess, sys, tempfile
 ROOT = os.path.dirname(os.path.dirname(os.path.abspath(__file__)))
-EXTRA = {"C01-m1": ["C07"], "C01-m2": ["C02"], "C06-m2": ["C05"], "C08-m1": ["C07"], "C02-m2": ["C10"], "C03-m2": ["C07"], "C07-m1": ["C17"], "C17-m1": ["C03"], "C12-m4": ["C17"], "C03-m4": ["C17"], "C07-m3": ["C09"], "C07-m4": ["C03", "C09"], "C05-m3": ["C18"], "C18-m3": ["C05"], "C09-m3": ["C03"], "C01-m3": ["C13"], "C01-m4": ["C16"]}
+EXTRA = {"C01-m1": ["C07"], "C01-m2": ["C02"], "C06-m2": ["C05"], "C08-m1": ["C07"], "C02-m2": ["C10"], "C03-m2": ["C07"], "C07-m1": ["C17"], "C17-m1": ["C03"], "C12-m4": ["C17"], "C03-m4": ["C17"], "C07-m3": ["C09"], "C07-m4": ["C03", "C09"], "C05-m3": ["C18"], "C18-m3": ["C05"], "C09-m3": ["C03"], "C01-m3": ["C13"], "C01-m4": ["C16"], "C15-m4": ["C11"], "C06-m4": ["C16"], "C19-m4": ["C05"], "C02-m6": ["C12"], "C10-m4": ["C02"]}
 NOTES = {
+ "C15-m4": "caught by C11 (a YAQL expression raising IndexError / ZeroDivisionError escapes update_task_state): C11 owns 'expression errors are contained'",
+ "C06-m4": "caught by C16 (a mapping republished over an empty mapping keeps the empty one): C06's value model excludes mapping values (they deep-merge)",
+ "C19-m4": "caught by C05 (live twin vs restored twin differ): the change is invisible across hash seeds, it depends on where the conductor was restored",
+ "C02-m6": "caught by C12 (an item that acknowledged with `canceling` is no longer counted as in flight): C02's provider does not send intermediate statuses",
  "C01-m4": "caught by C16 (an action result that is itself a falsy value - 0, false, '', [], {} - arrives as null); C01's own action results are non-empty mappings, so none of its conditions tells them apart",
  "C12-m3": "not caught: needs a provider that relays an item's intermediate `canceling` / `pausing` status while a sibling item completes; the simulated provider reports running, pending and final statuses only (stated limit of the provider vocabulary)",
  "C12-m4": "caught by C17 (rerun of a with-items task whose failed item has a lower index than a succeeded one: the succeeded item is repeated, the failed one never runs); C12 itself never reruns",
@@ -54,4 +58,4 @@ if not only:
         for n, caught, res, note in rows:
             kinds = ", ".join("%s: %s" % (c, res[c]["kind"]) for c in caught)
             f.write("| %s | %s | %s | %s |\n" % (n, ", ".join(caught) or "**not caught**", kinds, note))
-        f.write("\nRegenerate with `tools/seedreport.py` (dev-time; about 40 minutes).\n")
+        f.write("\nRegenerate with `tools/seedreport.py` (dev-time; about two hours).\n")
